@@ -212,7 +212,10 @@ impl<S: Storage> Builder<S> {
     }
 
     /// Builds the executor for the given id.
+    #[cfg_attr(feature = "verif", allow(unreachable_code))]
     fn build_id(&mut self, id: Id) -> BoxedExecutor {
+        #[cfg(feature = "verif")]
+        return verif_recv_stream(usize::from(id), self.build_id_subscriber(id).subscribe());
         self.build_id_subscriber(id).subscribe()
     }
 
@@ -541,6 +544,12 @@ impl<S: Storage> Builder<S> {
         self.metrics
             .register(id, span.clone(), output_row_counter.clone());
 
+        #[cfg(feature = "verif")]
+        if crate::verif::observed() {
+            let children = self.node(id).children().iter().map(|c| usize::from(*c));
+            let detail = format!("{} {} {:?}", usize::from(id), name, children.collect::<Vec<_>>());
+            crate::verif::event("op.spawn", &detail);
+        }
         let (tx, rx) = async_broadcast::broadcast(16);
         // If the task panics, tell the consumers instead of silently closing the channel,
         // which they would take for the end of the stream.
@@ -640,6 +649,33 @@ fn verif_fault_stream(id: usize, name: String, mut stream: BoxedExecutor) -> Box
                     return;
                 }
                 None => {}
+            }
+            match item {
+                Some(item) => yield item,
+                None => return,
+            }
+            k += 1;
+        }
+    }
+    .boxed()
+}
+
+/// Wraps the consumer side of an operator's output with an observation point of the
+/// verification harness: every item the consumer actually receives (and the end of the
+/// stream) is reported as event `op.recv` with detail `"<id> <k> ok|err|end"`.
+#[cfg(feature = "verif")]
+fn verif_recv_stream(id: usize, mut stream: BoxedExecutor) -> BoxedExecutor {
+    async_stream::stream! {
+        let mut k = 0usize;
+        loop {
+            let item = stream.next().await;
+            let kind = match &item {
+                Some(Ok(_)) => "ok",
+                Some(Err(_)) => "err",
+                None => "end",
+            };
+            if crate::verif::observed() {
+                crate::verif::event("op.recv", &format!("{id} {k} {kind}"));
             }
             match item {
                 Some(item) => yield item,
